@@ -335,6 +335,9 @@ func (p *parent) account(c *Case, v *Verdict, upTo []Case, replay bool) {
 	p.res.Cover("entry:" + c.Entry)
 	p.res.Cover("class:" + c.Entry + ":" + v.Class)
 	p.res.Cover("cor:" + c.CorKind())
+	if c.IsControl() && v.Class != "" {
+		p.res.Cover("ctl:" + c.Entry + ":" + v.Class)
+	}
 	if v.Cover != "" {
 		p.res.Cover("note:" + v.Cover)
 	}
